@@ -545,13 +545,23 @@ func entityLUBsRelated(a, b entityLUB) bool {
 // isEntityDescendant returns true if childType can be a descendant (member) of ancestorType.
 // This means childType lists ancestorType (directly or transitively) in its ParentTypes.
 func (v *Validator) isEntityDescendant(childType, ancestorType types.EntityType) bool {
+	return v.isEntityDescendantVisiting(childType, ancestorType, map[types.EntityType]struct{}{})
+}
+
+// isEntityDescendantVisiting is the search behind isEntityDescendant. Entity type hierarchies may contain cycles
+// (`entity G in [G]` is legal), so the types already on the search path are remembered.
+func (v *Validator) isEntityDescendantVisiting(childType, ancestorType types.EntityType, visited map[types.EntityType]struct{}) bool {
+	if _, seen := visited[childType]; seen {
+		return false
+	}
+	visited[childType] = struct{}{}
 	// Entity types always exist in the schema (validated during scope checking).
 	entity := v.schema.Entities[childType]
 	for _, parent := range entity.ParentTypes {
 		if parent == ancestorType {
 			return true
 		}
-		if v.isEntityDescendant(parent, ancestorType) {
+		if v.isEntityDescendantVisiting(parent, ancestorType, visited) {
 			return true
 		}
 	}
